@@ -170,7 +170,8 @@ def fold(expr, globals_, env=None, _depth=0):
         raise NotConstant('call ' + ast.unparse(f))
     if isinstance(expr, ast.Compare) and len(expr.ops) == 1:
         a, b = ev(expr.left), ev(expr.comparators[0])
-        ops = {ast.Eq: a == b, ast.NotEq: a != b}
+        ops = {ast.Eq: a == b, ast.NotEq: a != b, ast.Is: a is b,
+               ast.IsNot: a is not b}
         if type(expr.ops[0]) in ops:
             return ops[type(expr.ops[0])]
         if isinstance(expr.ops[0], ast.In):
